@@ -1379,7 +1379,13 @@ fn preprocess_initial_file(
 
     // Add initial macros
     for (name, value) in initial_defines {
-        let tokens = match TokenStream::new(value, SourceLocation::UNKNOWN)
+        // Store the value like a source file so that its tokens can be located and unlexed like those of a #define line
+        let value_file_id = file_loader
+            .source_manager
+            .add_file(FileName(format!("<define {name}>")), value.to_string());
+        let value_location =
+            file_loader.get_source_location_from_file_offset(value_file_id, StreamLocation(0));
+        let tokens = match TokenStream::new(value, value_location)
             .suppress_trailing_endline()
             .read_to_end()
         {
